@@ -69,6 +69,8 @@ def gen(seed: int, tier: str) -> dict[str, Any]:
     else:
         cfg["stop_at"] = None
     cfg["join_first"] = stop_mode == "join_then_stop"
+    # stopping = XKNX.stop() (which waits for the queue first) or TelegramQueue.stop() itself with telegrams still pending
+    cfg["stop_via"] = "queue" if stop_mode in ("early", "immediately") and rng.random() < 0.4 else "xknx"
     return {"seed": seed, "tier": "S", "config": cfg, "ops": ops}
 
 
@@ -152,7 +154,11 @@ def run(plan: dict[str, Any]) -> dict[str, Any]:
                 info["join_ret"] = loop.time()
             info["stop_call"] = loop.time()
             R.record("op_call", "user", "stop")
-            await xknx.stop()
+            if cfg.get("stop_via") == "queue":
+                await xknx.telegram_queue.stop()
+                await xknx.knxip_interface.stop()
+            else:
+                await xknx.stop()
             info["stop_ret"] = loop.time()
             R.record("op_return", "user", "stop")
 
